@@ -361,7 +361,8 @@ fn check_history(evs: &[Ev], final_gets: &[(u32, Option<u64>)], final_stamp: u64
                             }
                         }
                         if let Some(by) = superseded(w, *begin, *k) {
-                            let mut props = vec!["C02"];
+                            // C01 in its concurrent reading: not the latest live value
+                            let mut props = vec!["C02", "C01"];
                             if by.starts_with("invalidate") {
                                 props.push("C07");
                             }
